@@ -27,6 +27,8 @@
 (*   addAny        blocks added in node order instead of residue-id order                  *)
 (*   firstMatchOnly a link is applied to the first match found only                        *)
 (*   orientLink    the stored orientation of a residue edge decides the link direction     *)
+(*   oncePerGroup  a link is applied at most once per SET of residues: of the two           *)
+(*                 orientations of a `*` link only the one met first survives (seed-C13-2)  *)
 (*   dfsTreeFrag   fragments are the components over depth-first TREE edges only  (F31, repaired) *)
 (*   fragIdOrder   block-copy correspondences are stored in merge order but looked up by an  *)
 (*                 id assigned in component-iteration order                       (F32, repaired) *)
@@ -57,7 +59,7 @@ LoadTab == LoadUpTo(Len(FFs))
 
 S0 == [pc |-> "load", L |-> L0, bx |-> <<>>, frags |-> <<>>, fid |-> <<>>, molN |-> 0, ord |-> <<>>, k |-> 1,
        M |-> [atoms |-> <<>>, gattr |-> <<>>, ints |-> {}, edges |-> {}, extra |-> <<>>, rm |-> {}],
-       corr |-> <<>>, added |-> {}, li |-> 1, todo |-> {}, orient |-> <<>>, err |-> "", fired |-> {}, out |-> ErrOut(""), exp |-> ErrOut("")]
+       corr |-> <<>>, added |-> {}, li |-> 1, todo |-> {}, grp |-> {}, orient |-> <<>>, err |-> "", fired |-> {}, out |-> ErrOut(""), exp |-> ErrOut("")]
 \* exp: the declared result of the case, evaluated once and carried along
 Init == case \in Cases /\ s = [S0 EXCEPT !.exp = PResult(case)]
 
@@ -149,7 +151,7 @@ BeginLink == /\ s.pc = "begin"
              /\ IF s.li > Len(s.L.l)
                 THEN s' = [s EXCEPT !.pc = "write"]
                 ELSE \E o \in (IF Dev.orientLink THEN {f \in [case.E -> Pos(case)] : \A e \in case.E : f[e] \in e} ELSE {<<>>}) :
-                       s' = [s EXCEPT !.pc = "try",
+                       s' = [s EXCEPT !.pc = "try", !.grp = {},
                                       !.orient = IF s.li = 1 THEN o ELSE @,
                                       !.todo = IF Prefilter(s.M, CurLink) THEN ResMatches(case, CurLink) ELSE {}]
              /\ UNCHANGED case
@@ -158,9 +160,11 @@ TryMatch(phi) ==
   /\ s.pc = "try" /\ phi \in s.todo
   /\ LET l == CurLink
          iv == ImgVec(case, s.M, l, phi)
-         ok == OrientOK(l, phi) /\ \A a \in DOMAIN l.atoms : iv[a] # 0
-     IN s' = IF ~ok THEN [s EXCEPT !.todo = @ \ {phi}]
-             ELSE [s EXCEPT !.todo = IF Dev.firstMatchOnly THEN {} ELSE @ \ {phi},
+         rng == {phi[i] : i \in DOMAIN phi}
+         skip == Dev.oncePerGroup /\ OrientOK(l, phi) /\ rng \in s.grp
+         ok == OrientOK(l, phi) /\ ~skip /\ \A a \in DOMAIN l.atoms : iv[a] # 0
+     IN s' = IF ~ok THEN [s EXCEPT !.todo = @ \ {phi}, !.grp = IF OrientOK(l, phi) THEN @ \cup {rng} ELSE @]
+             ELSE [s EXCEPT !.todo = IF Dev.firstMatchOnly THEN {} ELSE @ \ {phi}, !.grp = @ \cup {rng},
                             !.M.rm = @ \cup DelImg(l, iv),
                             !.M.atoms = [g \in DOMAIN s.M.atoms |-> IF \E r \in RepImg(l, s.li, iv) : r.g = g
                                                             THEN [s.M.atoms[g] EXCEPT !.ty = (CHOOSE r \in RepImg(l, s.li, iv) : r.g = g).ty] ELSE s.M.atoms[g]],
